@@ -210,10 +210,12 @@ func runC08(r *Run) {
 		var ops []c08Op
 		var obs []Obs
 		mkData := func() Val {
-			switch rr.Intn(4) {
-			case 0, 1:
+			switch rr.Intn(9) {
+			case 8:
+				return VNil() // Fill(nil): no data at all
+			case 0, 1, 4, 5:
 				return VMap(subset("fill", []string{"a", "b", "c", "Dd"})...)
-			case 2:
+			case 2, 6:
 				return Val{K: "struct", T: "S4", M: []KV{{K: "A", V: VStr(Pick(rr, []string{"", "sfill-a"}))}, {K: "B", V: VInt("int", int64(rr.Intn(2)))}, {K: "C", V: VStr("sfill-c")}, {K: "Dd", V: VStr(Pick(rr, []string{"", "sfill-Dd"}))}}}
 			default:
 				s := Val{K: "struct", T: "S4", M: []KV{{K: "A", V: VStr("pfill-a")}, {K: "B", V: VInt("int", 1)}, {K: "C", V: VStr("")}, {K: "Dd", V: VStr("pfill-Dd")}}}
